@@ -89,8 +89,8 @@ FAMILIES = {
         facets=['history', 'capacity', 'harness', 'other', 'queue'],
         rule='max_history_size 1-5, bursts larger than N, nested dispatch, slow handlers; non-trivial: an eviction happens'),
     'C14': dict(
-        gens=[('core', dict(), 0.5), ('backlog', dict(), 0.5)],
-        facets=['capacity', 'dispatch', 'queue', 'history', 'lineage', 'unfinished', 'harness', 'other', 'rest', 'activation', 'handlers'],
+        gens=[('core', dict(), 0.47), ('backlog', dict(), 0.47), ('stop', dict(p_cancel=0.9), 0.06)],
+        facets=['capacity', 'dispatch', 'queue', 'history', 'lineage', 'unfinished', 'harness', 'other', 'rest', 'activation', 'handlers', 'runloop'],
         rule='backlog states around the queue limit (50) and the in-flight limit (100), dispatch from main code and from handlers; '
              'non-trivial: a dispatch is rejected'),
     'C15': dict(
